@@ -7,6 +7,7 @@ pub mod c02;
 pub mod c03;
 pub mod c04;
 pub mod c05;
+pub mod c07;
 pub mod c11;
 pub mod c12;
 pub mod c14;
@@ -16,7 +17,7 @@ pub mod c19;
 pub mod c20;
 pub mod gprog;
 
-pub const ALL: &[&str] = &["C01", "C02", "C03", "C04", "C05", "C11", "C12", "C14", "C15", "C16", "C19", "C20"];
+pub const ALL: &[&str] = &["C01", "C02", "C03", "C04", "C05", "C07", "C11", "C12", "C14", "C15", "C16", "C19", "C20"];
 
 pub fn intern(id: &str) -> Option<&'static str> {
     ALL.iter().copied().find(|p| *p == id)
@@ -36,6 +37,7 @@ pub fn meta(prop: &str) -> Option<Meta> {
         "C03" => Some(c03::meta()),
         "C04" => Some(c04::meta()),
         "C05" => Some(c05::meta()),
+        "C07" => Some(c07::meta()),
         "C11" => Some(c11::meta()),
         "C12" => Some(c12::meta()),
         "C14" => Some(c14::meta()),
@@ -54,6 +56,7 @@ pub fn spaces(prop: &str, tier: Tier, seed: u64) -> Vec<Box<dyn Space>> {
         "C03" => c03::spaces(tier, seed),
         "C04" => c04::spaces(tier, seed),
         "C05" => c05::spaces(tier, seed),
+        "C07" => c07::spaces(tier, seed),
         "C11" => c11::spaces(tier, seed),
         "C12" => c12::spaces(tier, seed),
         "C14" => c14::spaces(tier, seed),
